@@ -25,7 +25,7 @@ def nabs(x):
 
 MANIFEST = dict(
     technique='explicit-state enumeration of the CTC matrix input tree x beam width x selector; real decoder vs brute-force CTC sum and a reference prefix beam search that explores every tie resolution',
-    text='Bounded exhaustive: every matrix with T <= 4 (quick) / 5 (thorough) rows over a 13-row alphabet (C=3; ties, zeros, one-hot rows, entries straddling the pre-selection threshold, all-pruned rows) and T <= 3/4 over 7 rows (C=4), for k in {1,2,3,4,100} and both selectors. Distinctness, the no-over-count bound and exactness are checked against the full alignment sum; the pruned result against a textbook prefix beam search with all boundary-tie resolutions; un-normalised variants must be rejected. Added sub-sweeps: float32 input, one decoder object re-used across lines (and still rejecting un-normalised input), a non-pruning selector returning unsorted indices, lines of 260-520 frames against the forward recursion (validated against enumeration in setup), and the three-symbol matrices embedded in a 33 000-symbol output layer. A third class count (C=5, T<=3/4): frames with more relevant symbols than the beam is wide next to blank-only frames.',
+    text='Bounded exhaustive: every matrix with T <= 4 (quick) / 5 (thorough) rows over a 13-row alphabet (C=3; ties, zeros, one-hot rows, entries straddling the pre-selection threshold, all-pruned rows) and T <= 3/4 over 7 rows (C=4), for k in {1,2,3,4,100} and both selectors. Distinctness, the no-over-count bound and exactness are checked against the full alignment sum; the pruned result against a textbook prefix beam search with all boundary-tie resolutions; un-normalised variants must be rejected. Added sub-sweeps: float32 input, one decoder object re-used across lines (and still rejecting un-normalised input), a non-pruning selector returning unsorted indices, lines of 260-520 frames against the forward recursion (validated against enumeration in setup), and the three-symbol matrices embedded in a 33 000-symbol output layer. A third class count (C=5, T<=3/4): frames with more relevant symbols than the beam is wide next to blank-only frames. Wave 10: one un-normalised frame anywhere in lines of 260-1100 frames (block borders, last frames) must be rejected; every single failing array allocation of the decoder on all matrices of up to two rows (the decoder may report the failure, hypotheses it returns must still be distinct and never over-counted).',
     note='Real-valued matrices outside the alphabet, T > 5 and C > 5 are not explored; scores compared within 1e-9.',
     ref='3/C02')
 TH = math.exp(-10)   # 4.54e-5: the default pre-selection keeps logits > -10
